@@ -3,7 +3,8 @@
  * Contracts on the real BarrierImpl / BarrierAcquisitionImpl methods (extracted by cxx2c into gen.c).
  * Abstract view of the barrier b: n = expected_actors_, Q(b) = arrivals of the current (incomplete) group, in arrival
  * order (ongoing_acquisitions_), each (issuer, granted).  A wait "returns" when ActorImpl::simcall_answer is called for
- * its issuer; the ghost log g_ans_log records these calls in order.                                                   */
+ * its issuer; the ghost log g_ans_log records these calls in order.  ActorImpl::vf_rank is a ghost field (units.json
+ * extra_fields): for the issuer of a queued arrival, its arrival position in the current group.                        */
 #include "gen.h"
 
 #ifndef QCAP
@@ -22,7 +23,7 @@ struct BarrierImpl g_b;
 
 /* ghost observers of the assumed callees */
 int g_answered;                       /* number of ActorImpl::simcall_answer calls */
-struct ActorImpl* g_ans_log[QCAP + 2]; /* the actors answered, in call order */
+size_t g_ans_log[QCAP + 2];           /* ghost rank (vf_rank) of the actors answered, in call order */
 int g_registered;                     /* number of register_simcall calls */
 
 #define Qh (g_b.ongoing_acquisitions_.h)
@@ -39,13 +40,6 @@ int g_registered;                     /* number of register_simcall calls */
 #define ALLACT(P) (P(0) && P(1) && P(2) && P(3) && P(4))
 #define ALLQ(P) (P(0) && P(1) && P(2) && P(3))
 #define ALLPAIRS(P) (P(0, 1) && P(0, 2) && P(0, 3) && P(1, 2) && P(1, 3) && P(2, 3))
-/* position, among the first n arrivals, of the one issued by actor a (n if none) */
-#define POSN(a, n)                                                                                                     \
-  ((n) > 0 && g_acq[Qh].issuer_ == (a)                                                                                 \
-       ? 0                                                                                                             \
-       : (n) > 1 && g_acq[Qh + 1].issuer_ == (a)                                                                       \
-             ? 1                                                                                                       \
-             : (n) > 2 && g_acq[Qh + 2].issuer_ == (a) ? 2 : (n) > 3 && g_acq[Qh + 3].issuer_ == (a) ? 3 : (n))
 #define GRANTED_FLAGS                                                                                                  \
   g_acq[0].granted_, g_acq[1].granted_, g_acq[2].granted_, g_acq[3].granted_, g_acq[4].granted_, g_acq[5].granted_,    \
       g_acq[6].granted_, g_acq[7].granted_, g_acq[8].granted_, g_acq[9].granted_
@@ -58,16 +52,6 @@ int g_registered;                     /* number of register_simcall calls */
 #define ALLPAIRS(P)                                                                                                    \
   (P(0, 1) && P(0, 2) && P(0, 3) && P(0, 4) && P(0, 5) && P(1, 2) && P(1, 3) && P(1, 4) && P(1, 5) && P(2, 3) &&       \
    P(2, 4) && P(2, 5) && P(3, 4) && P(3, 5) && P(4, 5))
-#define POSN(a, n)                                                                                                     \
-  ((n) > 0 && g_acq[Qh].issuer_ == (a)                                                                                 \
-       ? 0                                                                                                             \
-       : (n) > 1 && g_acq[Qh + 1].issuer_ == (a)                                                                       \
-             ? 1                                                                                                       \
-             : (n) > 2 && g_acq[Qh + 2].issuer_ == (a)                                                                 \
-                   ? 2                                                                                                 \
-                   : (n) > 3 && g_acq[Qh + 3].issuer_ == (a)                                                           \
-                         ? 3                                                                                           \
-                         : (n) > 4 && g_acq[Qh + 4].issuer_ == (a) ? 4 : (n) > 5 && g_acq[Qh + 5].issuer_ == (a) ? 5 : (n))
 #define GRANTED_FLAGS                                                                                                  \
   g_acq[0].granted_, g_acq[1].granted_, g_acq[2].granted_, g_acq[3].granted_, g_acq[4].granted_, g_acq[5].granted_,    \
       g_acq[6].granted_, g_acq[7].granted_, g_acq[8].granted_, g_acq[9].granted_, g_acq[10].granted_,                  \
@@ -95,6 +79,8 @@ int g_registered;                     /* number of register_simcall calls */
 #define WS(k) (A(k).issuer_->waiting_synchros_)
 #define NOT_WAITED(k)                                                                                                  \
   ((WS(k).n <= 0 || WS(k).d[0] != &ACT(&A(k))) && (WS(k).n <= 1 || WS(k).d[1] != &ACT(&A(k))))
+/* ghost labelling of the waiting actors by arrival position (exists because issuers are pairwise distinct) */
+#define RANKED(k) (!((k) < Qn) || A(k).issuer_->vf_rank == (k))
 #define LINK(k) (!((k) < Qn) || SIMCALLS_N(&A(k)) == 1 || NOT_WAITED(k))
 
 /* ghost indices: an arbitrary queue position / two arbitrary log positions / an arbitrary acquisition object */
@@ -121,7 +107,7 @@ struct ActorImpl* ActivityImpl__unregister_first_simcall(struct ActivityImpl* se
 void ActorImpl__simcall_answer(struct ActorImpl* self)
     __CPROVER_requires(IS_ACTOR(self) && LOG_OK && GHOSTS_OK)
     __CPROVER_assigns(g_answered, __CPROVER_object_whole(g_ans_log))
-    __CPROVER_ensures(g_answered == __CPROVER_old(g_answered) + 1 && g_ans_log[__CPROVER_old(g_answered)] == self)
+    __CPROVER_ensures(g_answered == __CPROVER_old(g_answered) + 1 && g_ans_log[__CPROVER_old(g_answered)] == self->vf_rank)
     __CPROVER_ensures(!(ga < __CPROVER_old(g_answered)) || g_ans_log[ga] == __CPROVER_old(g_ans_log[ga]))
     __CPROVER_ensures(!(gb < __CPROVER_old(g_answered)) || g_ans_log[gb] == __CPROVER_old(g_ans_log[gb]));
 
@@ -155,7 +141,7 @@ void BarrierAcquisitionImpl__finish(struct BarrierAcquisitionImpl* self)
     __CPROVER_ensures(vf_exc == 0 || vf_exc == VF_EXC_ABORT)
     __CPROVER_ensures(vf_exc == 0 || g_answered == __CPROVER_old(g_answered))
     __CPROVER_ensures(vf_exc != 0 || (g_answered == __CPROVER_old(g_answered) + 1 &&
-                                      g_ans_log[__CPROVER_old(g_answered)] == self->issuer_))
+                                      g_ans_log[__CPROVER_old(g_answered)] == self->issuer_->vf_rank))
     /*@ finish_answers_the_issuer_once */
     __CPROVER_ensures(!(ga < __CPROVER_old(g_answered)) || g_ans_log[ga] == __CPROVER_old(g_ans_log[ga]))
     __CPROVER_ensures(!(gb < __CPROVER_old(g_answered)) || g_ans_log[gb] == __CPROVER_old(g_ans_log[gb]))
@@ -179,7 +165,7 @@ void BarrierAcquisitionImpl__wait_for(struct BarrierAcquisitionImpl* self, struc
 #define NOT_MINE(k) (!((k) < Qn) || A(k).issuer_ != issuer)
 struct BarrierAcquisitionImpl* BarrierImpl__acquire_async(struct BarrierImpl* self, struct ActorImpl* issuer)
     __CPROVER_requires(self == &g_b && WF_BAR && WF_ACTORS && IS_ACTOR(issuer) && vf_exc == 0 &&
-                       g_answered == 0 && GHOSTS_OK && ALLQ(LINK))
+                       g_answered == 0 && GHOSTS_OK && ALLQ(LINK) && ALLQ(RANKED))
     /* model capacity: an arrival that has to be queued finds room */
     __CPROVER_requires(Qn + 1 == NEXP || Qh + Qn + 1 <= QCAP)
     /* assumed from the s4u layer: the caller is not already blocked on this barrier */
@@ -203,9 +189,9 @@ struct BarrierAcquisitionImpl* BarrierImpl__acquire_async(struct BarrierImpl* se
     __CPROVER_ensures(!(gj < oldQh || gj >= oldQh + oldQn) || g_acq[gj].granted_ == __CPROVER_old(g_acq[gj].granted_))
     /*@ nobody_outside_the_group_is_released */
     __CPROVER_ensures(0 <= g_answered && (size_t)g_answered <= oldQn) /*@ at_most_one_answer_per_waiter */
-    __CPROVER_ensures(!(ga < gb && gb < (size_t)g_answered) ||
-                      POSN(g_ans_log[ga], oldQn) < POSN(g_ans_log[gb], oldQn)) /*@ waits_return_in_arrival_order */
-    __CPROVER_ensures(!(ga < (size_t)g_answered) || POSN(g_ans_log[ga], oldQn) < oldQn)
+    __CPROVER_ensures(!(ga < gb && gb < (size_t)g_answered) || g_ans_log[ga] < g_ans_log[gb])
+    /*@ waits_return_in_arrival_order */
+    __CPROVER_ensures(!(ga < (size_t)g_answered) || g_ans_log[ga] < oldQn)
     /*@ only_waiters_of_the_group_return */
     __CPROVER_ensures(Qn < NEXP) /*@ arrival_keeps_the_group_incomplete */;
 /* wf_Bar of the new state follows piecewise from the clauses above (old arrivals untouched, the new one is a fresh
@@ -219,10 +205,9 @@ struct BarrierAcquisitionImpl* BarrierImpl__acquire_async(struct BarrierImpl* se
                                (!(gk < __i0) || A(gk).granted_) &&                                                    \
                                (!(gj < Qh || gj >= Qh + Qn) ||                                                         \
                                 g_acq[gj].granted_ == __CPROVER_loop_entry(g_acq[gj].granted_)) &&                     \
-                               (!(ga < (size_t)g_answered) || POSN(g_ans_log[ga], Qn) < __i0) &&                       \
-                               (!(gb < (size_t)g_answered) || POSN(g_ans_log[gb], Qn) < __i0) &&                       \
-                               (!(ga < gb && gb < (size_t)g_answered) ||                                               \
-                                POSN(g_ans_log[ga], Qn) < POSN(g_ans_log[gb], Qn)))                                    \
+                               (!(ga < (size_t)g_answered) || g_ans_log[ga] < __i0) &&                                 \
+                               (!(gb < (size_t)g_answered) || g_ans_log[gb] < __i0) &&                                 \
+                               (!(ga < gb && gb < (size_t)g_answered) || g_ans_log[ga] < g_ans_log[gb]))               \
           __CPROVER_decreases(Qn - __i0)
 
 #include "gen.c"
